@@ -1114,7 +1114,7 @@ def check_c02(pid, tier, build, props):
         if not b5["ok"]:
             problems.append("bounded theorem for 5 blocks does not check: %r" % (b5.get("failed") or b5.get("output"),))
     coverage = {
-        "bounded_theorem_5_blocks": b5 if b5 is not None else "thorough tier only (26 sharded coqc runs over all 443 400 graphs)",
+        "bounded_theorem_5_blocks": b5 if b5 is not None else "thorough tier only (676 sharded coqc runs over all 443 400 graphs)",
         "pipeline_model": dict(piperun.summary(pr), holds=tie_ok),
         "evaluations": total,
         "distinct_nontrivial": total - sn["distribution"]["n"].get("1", 0),
